@@ -5,8 +5,10 @@ CFG = {
         "Parsley.C07.paeth_eq_spec", "Parsley.C07.average_eq_spec", "Parsley.C07.paeth_nearest",
         "Parsley.C07.paeth_i16_in_range", "Parsley.C07.average_u16_in_range", "Parsley.C07.png_no_rows_is_error",
         "Parsley.C07.pngRowLoop_spec", "Parsley.C07.sumLeftLoop_spec",
+        "Parsley.C07.predictor_roundtrip_samples8", "Parsley.C07.predictor_roundtrip_samples16",
+        "Parsley.C07.legacy_paeth_witness", "Parsley.C07.legacy_average_witness",
     ],
-    "n": {"quick": 1500, "thorough": 30000},
+    "n": {"quick": 1500, "thorough": 100000},
     "exhaustive": {"quick": False, "thorough": True},
     "rule": "corpus (DESIGN section-4 defects #11-#16 and hand-built 16-bit/sub-byte/TIFF rows) first; Paeth on the real fn for all c "
             "x (a,b) grid (stride 5x7 quick, all 65536 pairs = 2^24 triples thorough); Average/Paeth neighbour triples through the row "
